@@ -231,3 +231,15 @@ Proof.
            ++ apply lex_least. intros z i [Hzl Hz] Hi _. unfold product_value. simpl.
               rewrite Hst by lia. specialize (Hz i). lia.
 Qed.
+
+(* the same with the exact fuel and the absence of repetitions made explicit *)
+Theorem product_enumerates_exact : forall ns,
+  exists l e, drain product_next product_value (S (length l)) (product_init ns) = Some (l, e) /\
+    (StronglySorted lex_lt l /\ NoDup l /\ (forall x, In x l <-> in_product ns x) /\
+     exhausted product_next e).
+Proof.
+  intros ns. apply drain_exact_fuel with (Q := fun l e => _).
+  destruct (product_enumerates ns) as (fuel & l & e & H1 & H2 & H3 & H4).
+  exists fuel, l, e. split; [exact H1|]. split; [exact H2|].
+  split; [apply (strict_sorted_nodup lex_lt lex_irrefl); auto|]. split; [exact H3|exact H4].
+Qed.
